@@ -206,6 +206,9 @@ func TestC08_FieldBinding(t *testing.T) {
 
 // ---- body lists ---------------------------------------------------------------------------------
 
+// shareHC is the zone header chain the uncle mutation asks for share classification.
+var shareHC *core.HeaderChain
+
 type bodyMutation struct {
 	name  string
 	ctx   int // view the mutation applies to
@@ -276,6 +279,22 @@ func bodyMutations() []bodyMutation {
 		u.SetNonce(types.EncodeNonce(u.NonceU64() + 1))
 		b.Body().SetUncles(append(append([]*types.WorkObjectHeader{}, b.Uncles()...), u))
 		return true
+	})
+	z("uncles/add-valid-share", func(b *types.WorkObject) bool {
+		// a sibling share: same header, another nonce, ground until the node classifies it as a
+		// valid workshare (so that only the uncle root can refuse the body)
+		if shareHC == nil {
+			return false
+		}
+		u := types.CopyWorkObjectHeader(b.WorkObjectHeader())
+		for i := uint64(1); i < 20000; i++ {
+			u.SetNonce(types.EncodeNonce(b.WorkObjectHeader().NonceU64() + i*7919))
+			if shareHC.UncleWorkShareClassification(u) == types.Valid {
+				b.Body().SetUncles(append(append([]*types.WorkObjectHeader{}, b.Uncles()...), u))
+				return true
+			}
+		}
+		return false
 	})
 	z("uncles/drop", func(b *types.WorkObject) bool {
 		if len(b.Uncles()) == 0 {
@@ -410,6 +429,7 @@ func TestC08_SimBinding(t *testing.T) {
 			if err := f.SetHeads(b.Parents); err != nil {
 				t.Fatalf("HARNESS: replay adopt parents of block %d: %v", bi, err)
 			}
+			shareHC = f.Nodes[sim.Zone].Core.Slice().HeaderChain()
 			node := f.Nodes[b.Order]
 			hc := node.Core.Slice().HeaderChain()
 			offer := func(views [3]*types.WorkObject) error {
@@ -419,7 +439,9 @@ func TestC08_SimBinding(t *testing.T) {
 				_, err := node.Core.Slice().Append(types.CopyWorkObject(views[b.Order]), common.Hash{}, false, nil)
 				return err
 			}
-			inDepth := bi >= len(a.Blocks)-steps && rapid.IntRange(0, 1).Draw(t, "mutateHere") == 0
+			// always: prelude block 7 (zone order, carries transactions) and 8 (prime order: prime,
+			// region and zone views); of the generated blocks a drawn half
+			inDepth := bi == 7 || bi == 8 || (bi >= len(a.Blocks)-steps && rapid.IntRange(0, 1).Draw(t, "mutateHere") == 0)
 			if inDepth && os.Getenv("C08_DEBUG_NOMUT") == "" {
 				// (i) single-field changes of the sealed header, old seal kept
 				top := b.Views[b.Order]
